@@ -213,6 +213,37 @@ MUTANTS = [
 ]
 
 BENIGN = [
+ dict(id="B13a", props=["C01", "C03", "C04", "C09", "C13", "C08", "C02", "C12", "C18", "C11"], file=TL,
+      what="TwoLevel reverse loop refactored through a cp_storage local (correct Move/Copy decision kept)",
+      old="""                    if cp_n == self._max_n - self._r - 1:
+                        snapshots.pop()
+                        self._n = cp_n
+                        if cp_n == n0s:
+                            yield Copy(cp_n, StorageType.DISK, StorageType.WORK)  # noqa: E501
+                        else:
+                            yield Move(cp_n, self._binomial_storage, StorageType.WORK)  # noqa: E501
+                    else:
+                        self._n = cp_n
+                        if cp_n == n0s:
+                            yield Copy(cp_n, StorageType.DISK, StorageType.WORK)  # noqa: E501
+                        else:
+                            yield Copy(cp_n, self._binomial_storage, StorageType.WORK)  # noqa: E501
+""",
+      new="""                    if cp_n == n0s:
+                        cp_storage = StorageType.DISK
+                    else:
+                        cp_storage = self._binomial_storage
+                    self._n = cp_n
+                    if cp_n == self._max_n - self._r - 1:
+                        snapshots.pop()
+                        if cp_n == n0s:
+                            # periodic disk checkpoints are kept for later passes
+                            yield Copy(cp_n, cp_storage, StorageType.WORK)
+                        else:
+                            yield Move(cp_n, cp_storage, StorageType.WORK)
+                    else:
+                        yield Copy(cp_n, cp_storage, StorageType.WORK)
+"""),
  dict(id="B16a", props=["C16"], file=MX, what="commuted cost expression in the memoised planner",
       old="""            m1 = (
                 i
